@@ -1,0 +1,517 @@
+//go:build verif
+
+package parser
+
+// Contracts for the govc verification-condition generator (/verif/DESIGN.md section 3.4).
+// This file is compiled only with the build tag "verif"; every contract line starts with //@.
+
+//@ pred LexInv(l) := l != nil && 0 <= l.pos && l.pos <= len(l.input) && l.line >= 1 && l.column >= 1 && l.line <= l.pos + 1 && l.column <= l.pos + 1
+
+//@ pure (*Lexer).peek (*Lexer).peekRune (*Lexer).position (*Lexer).makeToken (*Lexer).isWhitespace (*Lexer).isDigit (*Lexer).isLetter (*Lexer).isAccountStart (*Lexer).isAccountStartRune (*Lexer).isCurrencySymbol (*Lexer).nextIsCurrencySymbol (*Lexer).nextIsDigit isAccountTerminator isDirective
+
+//@ func (*Lexer).advance
+//@   effects noalloc
+//@   props C06
+//@   requires LexInv(l)
+//@   ensures [inv] LexInv(l)
+//@   ensures [step] old(l.pos) < len(l.input) ==> l.pos == old(l.pos) + width(l.input, old(l.pos)) && l.column == old(l.column) + 1
+//@   ensures [stay] old(l.pos) >= len(l.input) ==> l.pos == old(l.pos) && l.column == old(l.column)
+//@   ensures [C08:col16] old(l.pos) < len(l.input) ==> l.column == old(l.column) + u16w(rune(l.input, old(l.pos)))
+//@   ensures [frame] l.input == old(l.input) && l.line == old(l.line) && l.atStart == old(l.atStart)
+//@   modifies l.pos, l.column
+
+//@ func (*Lexer).skipSpaces
+//@   effects noalloc
+//@   props C06
+//@   requires LexInv(l)
+//@   ensures [inv] LexInv(l)
+//@   ensures [spec] l.pos == skipsp(l.input, old(l.pos))
+//@   ensures [col] l.column == old(l.column) + l.pos - old(l.pos)
+//@   ensures [frame] l.input == old(l.input) && l.line == old(l.line) && l.atStart == old(l.atStart)
+//@   modifies l.pos, l.column
+//@   loop 1 invariant LexInv(l) && l.input == old(l.input) && l.line == old(l.line) && l.atStart == old(l.atStart)
+//@   loop 1 invariant old(l.pos) <= l.pos && l.pos <= skipsp(l.input, old(l.pos))
+//@   loop 1 invariant l.column == old(l.column) + l.pos - old(l.pos)
+//@   loop 1 decreases len(l.input) - l.pos
+
+//@ func (*Lexer).scanText
+//@   effects noalloc
+//@   props C06
+//@   requires LexInv(l) && l.pos < len(l.input)
+//@   requires l.input[l.pos] != '\n' && l.input[l.pos] != ';' && l.input[l.pos] != '|'
+//@   ensures [inv] LexInv(l)
+//@   ensures [progress] l.pos > old(l.pos)
+//@   ensures [span] result.Pos.Offset == old(l.pos) && result.End.Offset == l.pos && result.Type == TokenText
+//@   ensures [posvalid] result.Pos.Line >= 1 && result.Pos.Column >= 1 && result.Pos.Line <= len(l.input) + 1 && result.Pos.Column <= len(l.input) + 1
+//@   ensures [stop] l.pos == len(l.input) || l.input[l.pos] == '\n' || l.input[l.pos] == ';' || l.input[l.pos] == '|'
+//@   modifies l.pos, l.column
+//@   loop 1 invariant LexInv(l) && l.input == old(l.input) && l.atStart == old(l.atStart) && l.line == old(l.line)
+//@   loop 1 invariant old(l.pos) <= l.pos && start == old(l.pos) && startPos.Offset == old(l.pos)
+//@   loop 1 invariant l.pos == old(l.pos) ==> l.input[l.pos] != '\n' && l.input[l.pos] != ';' && l.input[l.pos] != '|'
+//@   loop 1 decreases len(l.input) - l.pos
+
+//@ func (*Lexer).scanNumber
+//@   effects noalloc
+//@   props C06
+//@   requires LexInv(l) && l.pos < len(l.input) && l.input[l.pos] >= '0' && l.input[l.pos] <= '9'
+//@   ensures [inv] LexInv(l)
+//@   ensures [progress] l.pos > old(l.pos)
+//@   ensures [span] result.Pos.Offset == old(l.pos) && result.End.Offset == l.pos && result.Type == TokenNumber
+//@   ensures [posvalid] result.Pos.Line >= 1 && result.Pos.Column >= 1 && result.Pos.Line <= len(l.input) + 1 && result.Pos.Column <= len(l.input) + 1
+//@   modifies l.pos, l.column
+//@   loop 1 invariant LexInv(l) && l.input == old(l.input) && l.atStart == old(l.atStart) && l.line == old(l.line)
+//@   loop 1 invariant old(l.pos) <= l.pos && start == old(l.pos) && startPos.Offset == old(l.pos)
+//@   loop 1 invariant l.pos == old(l.pos) ==> l.input[l.pos] >= '0' && l.input[l.pos] <= '9'
+//@   loop 1 decreases len(l.input) - l.pos
+
+//@ func (*Lexer).scanNewline
+//@   effects noalloc
+//@   props C06
+//@   requires LexInv(l) && l.pos < len(l.input) && l.input[l.pos] == '\n'
+//@   ensures [inv] LexInv(l)
+//@   ensures [step] l.pos == old(l.pos) + 1 && l.line == old(l.line) + 1 && l.column == 1 && l.atStart
+//@   ensures [span] result.Pos.Offset == old(l.pos) && result.End.Offset == l.pos && result.Type == TokenNewline
+//@   ensures [posvalid] result.Pos.Line >= 1 && result.Pos.Column >= 1 && result.Pos.Line <= len(l.input) + 1 && result.Pos.Column <= len(l.input) + 1
+//@   modifies l.pos, l.column, l.line, l.atStart
+
+//@ func (*Lexer).scanComment
+//@   effects noalloc
+//@   props C06
+//@   requires LexInv(l) && l.pos < len(l.input) && l.input[l.pos] == ';'
+//@   ensures [inv] LexInv(l)
+//@   ensures [progress] l.pos > old(l.pos)
+//@   ensures [span] result.Pos.Offset == old(l.pos) && result.End.Offset == l.pos && result.Type == TokenComment
+//@   ensures [posvalid] result.Pos.Line >= 1 && result.Pos.Column >= 1 && result.Pos.Line <= len(l.input) + 1 && result.Pos.Column <= len(l.input) + 1
+//@   ensures [stop] l.pos == len(l.input) || l.input[l.pos] == '\n'
+//@   ensures [noNL] forall k :: {l.input[k]} old(l.pos) <= k && k < l.pos ==> l.input[k] != '\n'
+//@   modifies l.pos, l.column
+//@   loop 1 invariant LexInv(l) && l.input == old(l.input) && l.atStart == old(l.atStart) && l.line == old(l.line)
+//@   loop 1 invariant old(l.pos) < l.pos && start == old(l.pos) + 1 && startPos.Offset == old(l.pos)
+//@   loop 1 invariant forall k :: {l.input[k]} old(l.pos) <= k && k < l.pos ==> l.input[k] != '\n'
+//@   loop 1 decreases len(l.input) - l.pos
+
+//@ func (*Lexer).scanAccount
+//@   effects noalloc
+//@   props C06
+//@   requires LexInv(l) && l.pos < len(l.input)
+//@   requires rune(l.input, l.pos) != ' ' && rune(l.input, l.pos) != '\t' && rune(l.input, l.pos) != '\n' && rune(l.input, l.pos) != '\r' && rune(l.input, l.pos) != ';' && rune(l.input, l.pos) != '@' && rune(l.input, l.pos) != '=' && rune(l.input, l.pos) != '(' && rune(l.input, l.pos) != ')' && rune(l.input, l.pos) != '[' && rune(l.input, l.pos) != ']'
+//@   ensures [inv] LexInv(l)
+//@   ensures [progress] l.pos > old(l.pos)
+//@   ensures [span] result.Pos.Offset == old(l.pos) && result.End.Offset == l.pos && result.Type == TokenAccount
+//@   ensures [posvalid] result.Pos.Line >= 1 && result.Pos.Column >= 1 && result.Pos.Line <= len(l.input) + 1 && result.Pos.Column <= len(l.input) + 1
+//@   ensures [C08:lexeme_exact] result.End.Offset == old(l.pos) + len(result.Value)
+//@   modifies l.pos, l.column
+//@   loop 1 invariant LexInv(l) && l.input == old(l.input) && l.atStart == old(l.atStart) && l.line == old(l.line)
+//@   loop 1 invariant old(l.pos) <= lastNonSpace && lastNonSpace <= l.pos && start == old(l.pos) && startPos.Offset == old(l.pos)
+//@   loop 1 invariant l.pos > old(l.pos) ==> lastNonSpace > old(l.pos)
+//@   loop 1 invariant l.pos == old(l.pos) ==> rune(l.input, l.pos) != ' ' && rune(l.input, l.pos) != '\t' && rune(l.input, l.pos) != '\n' && rune(l.input, l.pos) != '\r' && rune(l.input, l.pos) != ';' && rune(l.input, l.pos) != '@' && rune(l.input, l.pos) != '=' && rune(l.input, l.pos) != '(' && rune(l.input, l.pos) != ')' && rune(l.input, l.pos) != '[' && rune(l.input, l.pos) != ']'
+//@   loop 1 decreases len(l.input) - l.pos
+
+//@ func (*Lexer).scanInLine
+//@   effects noalloc
+//@   props C06
+//@   requires LexInv(l)
+//@   ensures [inv] LexInv(l)
+//@   ensures [progress] old(l.pos) < len(l.input) ==> l.pos > old(l.pos)
+//@   ensures [span] old(l.pos) <= result.Pos.Offset && result.Pos.Offset <= result.End.Offset && result.End.Offset <= l.pos
+//@   ensures [posvalid] result.Pos.Line >= 1 && result.Pos.Column >= 1 && result.Pos.Line <= len(l.input) + 1 && result.Pos.Column <= len(l.input) + 1
+//@   ensures [eof] result.Type == TokenEOF ==> l.pos == len(l.input)
+//@   ensures [C17:pos_at_lexeme] result.Type != TokenEOF ==> result.Pos.Offset == skipsp(l.input, old(l.pos))
+//@   modifies l.pos, l.column, l.line, l.atStart
+
+//@ pred Frame3(l) := l.input == old(l.input) && l.atStart == old(l.atStart) && l.line == old(l.line)
+//@ pred isDig(c) := c >= '0' && c <= '9'
+//@ pred isLet(c) := (c >= 'a' && c <= 'z') || (c >= 'A' && c <= 'Z')
+//@ pred notTextStop(c) := c != '\n' && c != ';' && c != '|'
+//@ pred notAcctTerm(r) := r != ' ' && r != '\t' && r != '\n' && r != '\r' && r != ';' && r != '@' && r != '=' && r != '(' && r != ')' && r != '[' && r != ']'
+
+//@ func (*Lexer).looksLikeAccount
+//@   effects noalloc
+//@   props C06
+//@   requires LexInv(l)
+//@   ensures [frame] l.pos == old(l.pos) && l.column == old(l.column) && l.input == old(l.input) && l.atStart == old(l.atStart) && l.line == old(l.line)
+//@   loop 1 invariant l.pos <= i && i <= len(l.input) && l.pos == old(l.pos) && l.column == old(l.column) && l.input == old(l.input) && l.atStart == old(l.atStart) && l.line == old(l.line) && LexInv(l)
+//@   loop 1 decreases len(l.input) - i
+
+//@ func (*Lexer).looksLikeVirtualAccount
+//@   effects noalloc
+//@   props C06
+//@   requires LexInv(l)
+//@   ensures [frame] l.pos == old(l.pos) && l.column == old(l.column) && l.input == old(l.input) && l.atStart == old(l.atStart) && l.line == old(l.line)
+//@   loop 1 invariant l.pos + 1 <= i && l.pos == old(l.pos) && l.column == old(l.column) && l.input == old(l.input) && l.atStart == old(l.atStart) && l.line == old(l.line) && LexInv(l)
+//@   loop 1 decreases len(l.input) - i
+
+//@ func (*Lexer).looksLikeDate
+//@   effects noalloc
+//@   props C06
+//@   requires LexInv(l)
+//@   ensures [frame] l.pos == old(l.pos) && l.column == old(l.column) && l.input == old(l.input) && l.atStart == old(l.atStart) && l.line == old(l.line)
+//@   ensures [digit] result ==> l.pos < len(l.input) && l.input[l.pos] >= '0' && l.input[l.pos] <= '9'
+//@   loop 1 invariant 0 <= i && i <= 4 && l.pos + 8 <= len(l.input) && l.pos == old(l.pos) && l.column == old(l.column) && l.input == old(l.input) && l.atStart == old(l.atStart) && l.line == old(l.line) && LexInv(l)
+//@   loop 1 invariant i > 0 ==> l.input[l.pos] >= '0' && l.input[l.pos] <= '9'
+//@   loop 1 decreases 4 - i
+
+//@ func (*Lexer).nextIsLetterCommodity
+//@   effects noalloc
+//@   props C06
+//@   requires LexInv(l)
+//@   ensures [frame] l.pos == old(l.pos) && l.column == old(l.column) && l.input == old(l.input) && l.atStart == old(l.atStart) && l.line == old(l.line)
+//@   loop 1 invariant l.pos + 1 <= pos && pos <= len(l.input) && l.pos == old(l.pos) && l.column == old(l.column) && l.input == old(l.input) && l.atStart == old(l.atStart) && l.line == old(l.line) && LexInv(l)
+//@   loop 1 decreases len(l.input) - pos
+
+//@ func (*Lexer).followsAmountNumber
+//@   effects noalloc
+//@   props C06
+//@   requires LexInv(l) && 0 <= pos && pos <= len(l.input)
+//@   ensures [frame] l.pos == old(l.pos) && l.column == old(l.column) && l.input == old(l.input) && l.atStart == old(l.atStart) && l.line == old(l.line)
+//@   loop 1 invariant 0 - 1 <= p && p < pos && pos <= len(l.input) && l.pos == old(l.pos) && l.column == old(l.column) && l.input == old(l.input) && l.atStart == old(l.atStart) && l.line == old(l.line) && LexInv(l)
+//@   loop 1 decreases p + 1
+
+//@ func (*Lexer).isAllUppercase
+//@   effects noalloc
+//@   props C06
+//@   requires LexInv(l)
+//@   ensures [frame] l.pos == old(l.pos) && l.column == old(l.column) && l.input == old(l.input) && l.atStart == old(l.atStart) && l.line == old(l.line)
+//@   ensures [nonempty] result ==> len(s) > 0
+//@   loop 1 invariant 0 <= i && i <= len(s) && l.pos == old(l.pos) && l.column == old(l.column) && l.input == old(l.input) && l.atStart == old(l.atStart) && l.line == old(l.line) && LexInv(l)
+//@   loop 1 decreases len(s) - i
+
+//@ func (*Lexer).looksLikeCommodity
+//@   props C06
+//@   effects none
+//@   ensures [nonempty] result ==> len(value) > 0
+//@   loop 1 invariant 0 <= iterpos1 && iterpos1 <= len(value) && len(value) > 0
+
+//@ func (*Lexer).scanDate
+//@   effects noalloc
+//@   props C06
+//@   requires LexInv(l) && l.pos < len(l.input) && isDig(l.input[l.pos])
+//@   ensures [inv] LexInv(l)
+//@   ensures [progress] l.pos > old(l.pos)
+//@   ensures [span] result.Pos.Offset == old(l.pos) && result.End.Offset == l.pos && result.Type == TokenDate
+//@   ensures [posvalid] result.Pos.Line >= 1 && result.Pos.Column >= 1 && result.Pos.Line <= len(l.input) + 1 && result.Pos.Column <= len(l.input) + 1
+//@   ensures [frame] Frame3(l)
+//@   modifies l.pos, l.column
+//@   loop 1 invariant LexInv(l) && Frame3(l) && old(l.pos) <= l.pos && start == old(l.pos) && startPos.Offset == old(l.pos)
+//@   loop 1 invariant l.pos == old(l.pos) ==> isDig(l.input[l.pos])
+//@   loop 1 decreases len(l.input) - l.pos
+
+//@ func (*Lexer).scanStatus
+//@   effects noalloc
+//@   props C06
+//@   requires LexInv(l) && l.pos < len(l.input)
+//@   ensures [inv] LexInv(l)
+//@   ensures [progress] l.pos > old(l.pos)
+//@   ensures [span] result.Pos.Offset == old(l.pos) && result.End.Offset == l.pos && result.Type == TokenStatus
+//@   ensures [posvalid] result.Pos.Line >= 1 && result.Pos.Column >= 1 && result.Pos.Line <= len(l.input) + 1 && result.Pos.Column <= len(l.input) + 1
+//@   ensures [frame] Frame3(l)
+//@   modifies l.pos, l.column
+
+//@ func (*Lexer).scanCode
+//@   effects noalloc
+//@   props C06
+//@   requires LexInv(l) && l.pos < len(l.input) && l.input[l.pos] == '('
+//@   ensures [inv] LexInv(l)
+//@   ensures [progress] l.pos > old(l.pos)
+//@   ensures [span] result.Pos.Offset == old(l.pos) && result.End.Offset == l.pos && result.Type == TokenCode
+//@   ensures [posvalid] result.Pos.Line >= 1 && result.Pos.Column >= 1 && result.Pos.Line <= len(l.input) + 1 && result.Pos.Column <= len(l.input) + 1
+//@   ensures [frame] Frame3(l)
+//@   modifies l.pos, l.column
+//@   loop 1 invariant LexInv(l) && Frame3(l) && old(l.pos) < start && start <= l.pos && startPos.Offset == old(l.pos)
+//@   loop 1 decreases len(l.input) - l.pos
+
+//@ func (*Lexer).scanIndent
+//@   effects noalloc
+//@   props C06
+//@   requires LexInv(l) && l.pos < len(l.input) && l.input[l.pos] != '\n' && (l.input[l.pos] == ' ' || l.input[l.pos] == '\t' || l.input[l.pos] == '\r')
+//@   ensures [inv] LexInv(l)
+//@   ensures [progress] l.pos > old(l.pos)
+//@   ensures [span] result.Pos.Offset == old(l.pos) && result.End.Offset == l.pos && result.Type == TokenIndent
+//@   ensures [posvalid] result.Pos.Line >= 1 && result.Pos.Column >= 1 && result.Pos.Line <= len(l.input) + 1 && result.Pos.Column <= len(l.input) + 1
+//@   ensures [frame] Frame3(l)
+//@   modifies l.pos, l.column
+//@   loop 1 invariant LexInv(l) && Frame3(l) && old(l.pos) <= l.pos && start == old(l.pos) && startPos.Offset == old(l.pos)
+//@   loop 1 invariant l.pos == old(l.pos) ==> l.input[l.pos] != '\n' && (l.input[l.pos] == ' ' || l.input[l.pos] == '\t' || l.input[l.pos] == '\r')
+//@   loop 1 decreases len(l.input) - l.pos
+
+//@ func (*Lexer).scanCurrencySymbol
+//@   effects noalloc
+//@   props C06
+//@   requires LexInv(l) && l.pos < len(l.input)
+//@   ensures [inv] LexInv(l)
+//@   ensures [progress] l.pos > old(l.pos)
+//@   ensures [span] result.Pos.Offset == old(l.pos) && result.End.Offset == l.pos && result.Type == TokenCommodity
+//@   ensures [posvalid] result.Pos.Line >= 1 && result.Pos.Column >= 1 && result.Pos.Line <= len(l.input) + 1 && result.Pos.Column <= len(l.input) + 1
+//@   ensures [frame] Frame3(l)
+//@   modifies l.pos, l.column
+
+//@ func (*Lexer).scanQuotedCommodity
+//@   effects noalloc
+//@   props C06
+//@   requires LexInv(l) && l.pos < len(l.input) && l.input[l.pos] == '"'
+//@   ensures [inv] LexInv(l)
+//@   ensures [progress] l.pos > old(l.pos)
+//@   ensures [span] result.Pos.Offset == old(l.pos) && result.End.Offset == l.pos && result.Type == TokenCommodity
+//@   ensures [posvalid] result.Pos.Line >= 1 && result.Pos.Column >= 1 && result.Pos.Line <= len(l.input) + 1 && result.Pos.Column <= len(l.input) + 1
+//@   ensures [frame] Frame3(l)
+//@   modifies l.pos, l.column
+//@   loop 1 invariant LexInv(l) && Frame3(l) && old(l.pos) < start && start <= l.pos && startPos.Offset == old(l.pos)
+//@   loop 1 decreases len(l.input) - l.pos
+
+//@ func (*Lexer).scanAt
+//@   effects noalloc
+//@   props C06
+//@   requires LexInv(l) && l.pos < len(l.input)
+//@   ensures [inv] LexInv(l)
+//@   ensures [progress] l.pos > old(l.pos)
+//@   ensures [span] result.Pos.Offset == old(l.pos) && result.End.Offset == l.pos && (result.Type == TokenAt || result.Type == TokenAtAt)
+//@   ensures [posvalid] result.Pos.Line >= 1 && result.Pos.Column >= 1 && result.Pos.Line <= len(l.input) + 1 && result.Pos.Column <= len(l.input) + 1
+//@   ensures [frame] Frame3(l)
+//@   modifies l.pos, l.column
+
+//@ func (*Lexer).scanEquals
+//@   effects noalloc
+//@   props C06
+//@   requires LexInv(l) && l.pos < len(l.input)
+//@   ensures [inv] LexInv(l)
+//@   ensures [progress] l.pos > old(l.pos)
+//@   ensures [span] result.Pos.Offset == old(l.pos) && result.End.Offset == l.pos && (result.Type == TokenEquals || result.Type == TokenDoubleEquals)
+//@   ensures [posvalid] result.Pos.Line >= 1 && result.Pos.Column >= 1 && result.Pos.Line <= len(l.input) + 1 && result.Pos.Column <= len(l.input) + 1
+//@   ensures [frame] Frame3(l)
+//@   modifies l.pos, l.column
+
+//@ func (*Lexer).scanSign
+//@   effects noalloc
+//@   props C06
+//@   requires LexInv(l) && l.pos < len(l.input)
+//@   ensures [inv] LexInv(l)
+//@   ensures [progress] l.pos > old(l.pos)
+//@   ensures [span] result.Pos.Offset == old(l.pos) && result.End.Offset == l.pos && result.Type == TokenSign
+//@   ensures [posvalid] result.Pos.Line >= 1 && result.Pos.Column >= 1 && result.Pos.Line <= len(l.input) + 1 && result.Pos.Column <= len(l.input) + 1
+//@   ensures [frame] Frame3(l)
+//@   modifies l.pos, l.column
+
+//@ func (*Lexer).scanDirectiveOrAccount
+//@   effects noalloc
+//@   props C06
+//@   requires LexInv(l) && l.pos < len(l.input) && isLet(l.input[l.pos])
+//@   ensures [inv] LexInv(l)
+//@   ensures [progress] l.pos > old(l.pos)
+//@   ensures [span] result.Pos.Offset == old(l.pos) && result.End.Offset == l.pos && result.Type != TokenEOF
+//@   ensures [posvalid] result.Pos.Line >= 1 && result.Pos.Column >= 1 && result.Pos.Line <= len(l.input) + 1 && result.Pos.Column <= len(l.input) + 1
+//@   ensures [frame] Frame3(l)
+//@   modifies l.pos, l.column
+//@   loop 1 invariant LexInv(l) && Frame3(l) && start == old(l.pos) && start <= l.pos && startPos.Offset == old(l.pos) && startPos.Column == old(l.column)
+//@   loop 1 invariant l.pos == start ==> l.pos < len(l.input) && isLet(l.input[l.pos])
+//@   loop 1 decreases len(l.input) - l.pos
+//@   loop 2 invariant LexInv(l) && Frame3(l) && start == old(l.pos) && start < l.pos && startPos.Offset == old(l.pos) && startPos.Column == old(l.column) && isLet(l.input[start])
+//@   loop 2 decreases len(l.input) - l.pos
+
+//@ func (*Lexer).scanCommodityOrText
+//@   effects noalloc
+//@   props C06
+//@   requires LexInv(l) && l.pos < len(l.input) && notTextStop(l.input[l.pos])
+//@   ensures [inv] LexInv(l)
+//@   ensures [progress] l.pos > old(l.pos)
+//@   ensures [span] result.Pos.Offset == old(l.pos) && result.End.Offset == l.pos && result.Type != TokenEOF
+//@   ensures [posvalid] result.Pos.Line >= 1 && result.Pos.Column >= 1 && result.Pos.Line <= len(l.input) + 1 && result.Pos.Column <= len(l.input) + 1
+//@   ensures [frame] Frame3(l)
+//@   modifies l.pos, l.column
+//@   loop 1 invariant LexInv(l) && Frame3(l) && start == old(l.pos) && start <= l.pos && startPos.Offset == old(l.pos) && startPos.Column == old(l.column)
+//@   loop 1 decreases len(l.input) - l.pos
+//@   loop 2 invariant LexInv(l) && Frame3(l) && start == old(l.pos) && start <= l.pos && startPos.Offset == old(l.pos) && startPos.Column == old(l.column)
+//@   loop 2 decreases len(l.input) - l.pos
+
+//@ func (*Lexer).scanLineStart
+//@   effects noalloc
+//@   props C06
+//@   requires LexInv(l) && l.pos < len(l.input)
+//@   ensures [inv] LexInv(l)
+//@   ensures [progress] l.pos > old(l.pos)
+//@   ensures [span] old(l.pos) <= result.Pos.Offset && result.Pos.Offset <= result.End.Offset && result.End.Offset <= l.pos
+//@   ensures [posvalid] result.Pos.Line >= 1 && result.Pos.Column >= 1 && result.Pos.Line <= len(l.input) + 1 && result.Pos.Column <= len(l.input) + 1
+//@   ensures [eof] result.Type == TokenEOF ==> l.pos == len(l.input)
+//@   modifies l.pos, l.column, l.line, l.atStart
+
+//@ func (*Lexer).Next
+//@   props C06
+//@   effects noalloc
+//@   requires LexInv(l)
+//@   ensures [inv] LexInv(l)
+//@   ensures [progress] old(l.pos) < len(l.input) ==> l.pos > old(l.pos)
+//@   ensures [atend] old(l.pos) >= len(l.input) ==> result.Type == TokenEOF && l.pos == old(l.pos)
+//@   ensures [span] old(l.pos) <= result.Pos.Offset && result.Pos.Offset <= result.End.Offset && result.End.Offset <= l.pos
+//@   ensures [posvalid] result.Pos.Line >= 1 && result.Pos.Column >= 1 && result.Pos.Line <= len(l.input) + 1 && result.Pos.Column <= len(l.input) + 1
+//@   ensures [eof] result.Type == TokenEOF ==> l.pos == len(l.input)
+//@   modifies l.pos, l.column, l.line, l.atStart
+
+//@ pred ParInv(p) := p != nil && p.lexer != nil && LexInv(p.lexer) && (p.current.Type == TokenEOF ==> p.lexer.pos == len(p.lexer.input))
+//@ pred MuLe(p) := 2 * (len(p.lexer.input) - p.lexer.pos) + ite(p.current.Type != TokenEOF, 1, 0) <= old(2 * (len(p.lexer.input) - p.lexer.pos) + ite(p.current.Type != TokenEOF, 1, 0))
+//@ pred MuLt(p) := 2 * (len(p.lexer.input) - p.lexer.pos) + ite(p.current.Type != TokenEOF, 1, 0) < old(2 * (len(p.lexer.input) - p.lexer.pos) + ite(p.current.Type != TokenEOF, 1, 0))
+//@ pred Mu(p) := 2 * (len(p.lexer.input) - p.lexer.pos) + ite(p.current.Type != TokenEOF, 1, 0)
+//@ pred PFrame(p) := p.lexer == old(p.lexer) && p.lexer.input == old(p.lexer.input)
+
+//@ func (*Parser).advance
+//@   props C06
+//@   requires p != nil && p.lexer != nil && LexInv(p.lexer)
+//@   ensures [inv] ParInv(p) && PFrame(p)
+//@   ensures [le] MuLe(p)
+//@   ensures [lt] old(p.current.Type) != TokenEOF ==> MuLt(p)
+//@   modifies p.current, p.lexer.pos, p.lexer.column, p.lexer.line, p.lexer.atStart
+
+//@ func (*Parser).skipToNextLine
+//@   props C06
+//@   requires ParInv(p)
+//@   ensures [inv] ParInv(p) && PFrame(p)
+//@   ensures [le] MuLe(p)
+//@   ensures [lt] old(p.current.Type) != TokenEOF ==> MuLt(p)
+//@   modifies p.current, p.lexer.pos, p.lexer.column, p.lexer.line, p.lexer.atStart
+//@   loop 1 invariant ParInv(p) && PFrame(p) && MuLe(p) && (p.current.Type != old(p.current.Type) || p.lexer.pos != old(p.lexer.pos) ==> MuLt(p))
+//@   loop 1 decreases 2 * (len(p.lexer.input) - p.lexer.pos) + ite(p.current.Type != TokenEOF, 1, 0)
+
+//@ pure toASTPosition
+//@ trusted isValidCommodityText
+
+//@ trusted parseTags
+//@ trusted normalizeNumber
+
+//@ func (*Parser).errorAt
+//@   props C06
+//@   requires ParInv(p)
+//@   ensures [inv] ParInv(p) && PFrame(p) && p.current == old(p.current) && p.lexer.pos == old(p.lexer.pos)
+//@   modifies p.errors
+
+//@ func (*Parser).error
+//@   props C06
+//@   requires ParInv(p)
+//@   ensures [inv] ParInv(p) && PFrame(p) && p.current == old(p.current) && p.lexer.pos == old(p.lexer.pos)
+//@   modifies p.errors
+
+//@ func (*Parser).parseComment
+//@   props C06
+//@   requires ParInv(p)
+//@   ensures [inv] ParInv(p) && PFrame(p) && MuLe(p)
+//@   ensures [lt] old(p.current.Type) != TokenEOF ==> MuLt(p)
+//@   modifies p.current, p.errors, p.defaultYear, p.lexer.pos, p.lexer.column, p.lexer.line, p.lexer.atStart
+
+//@ func (*Parser).parseStatus
+//@   props C06
+//@   requires ParInv(p)
+//@   ensures [inv] ParInv(p) && PFrame(p) && MuLe(p)
+//@   modifies p.current, p.errors, p.defaultYear, p.lexer.pos, p.lexer.column, p.lexer.line, p.lexer.atStart
+
+//@ func (*Parser).parseDate
+//@   props C06
+//@   requires ParInv(p)
+//@   ensures [inv] ParInv(p) && PFrame(p) && MuLe(p)
+//@   ensures [lt] old(p.current.Type) == TokenDate ==> MuLt(p)
+//@   modifies p.current, p.errors, p.defaultYear, p.lexer.pos, p.lexer.column, p.lexer.line, p.lexer.atStart
+//@   loop 1 invariant 0 <= i && ParInv(p) && PFrame(p) && MuLe(p) && (old(p.current.Type) == TokenDate ==> MuLt(p))
+//@   loop 1 decreases len(value) - i
+
+//@ func (*Parser).parseAmount
+//@   props C06
+//@   requires ParInv(p)
+//@   ensures [inv] ParInv(p) && PFrame(p) && MuLe(p)
+//@   modifies p.current, p.errors, p.defaultYear, p.lexer.pos, p.lexer.column, p.lexer.line, p.lexer.atStart
+
+//@ func (*Parser).parseCost
+//@   props C06
+//@   requires ParInv(p)
+//@   ensures [inv] ParInv(p) && PFrame(p) && MuLe(p)
+//@   ensures [lt] old(p.current.Type) != TokenEOF ==> MuLt(p)
+//@   modifies p.current, p.errors, p.defaultYear, p.lexer.pos, p.lexer.column, p.lexer.line, p.lexer.atStart
+
+//@ func (*Parser).parseBalanceAssertion
+//@   props C06
+//@   requires ParInv(p)
+//@   ensures [inv] ParInv(p) && PFrame(p) && MuLe(p)
+//@   ensures [lt] old(p.current.Type) != TokenEOF ==> MuLt(p)
+//@   modifies p.current, p.errors, p.defaultYear, p.lexer.pos, p.lexer.column, p.lexer.line, p.lexer.atStart
+
+//@ func (*Parser).parsePosting
+//@   props C06
+//@   requires ParInv(p)
+//@   ensures [inv] ParInv(p) && PFrame(p) && MuLe(p)
+//@   ensures [lt] old(p.current.Type) == TokenIndent ==> MuLt(p)
+//@   modifies p.current, p.errors, p.defaultYear, p.lexer.pos, p.lexer.column, p.lexer.line, p.lexer.atStart
+
+//@ func (*Parser).parseTransaction
+//@   props C06
+//@   requires ParInv(p) && p.current.Type == TokenDate
+//@   ensures [inv] ParInv(p) && PFrame(p) && MuLe(p)
+//@   ensures [lt] MuLt(p)
+//@   modifies p.current, p.errors, p.defaultYear, p.lexer.pos, p.lexer.column, p.lexer.line, p.lexer.atStart
+//@   loop 1 invariant ParInv(p) && PFrame(p) && MuLt(p)
+//@   loop 1 decreases 2 * (len(p.lexer.input) - p.lexer.pos) + ite(p.current.Type != TokenEOF, 1, 0)
+
+//@ func (*Parser).parseJournal
+//@   props C06
+//@   requires ParInv(p)
+//@   ensures [inv] ParInv(p) && PFrame(p) && p.current.Type == TokenEOF
+//@   modifies p.current, p.errors, p.defaultYear, p.lexer.pos, p.lexer.column, p.lexer.line, p.lexer.atStart
+//@   loop 1 invariant ParInv(p) && PFrame(p)
+//@   loop 1 decreases 2 * (len(p.lexer.input) - p.lexer.pos) + ite(p.current.Type != TokenEOF, 1, 0)
+
+//@ func (*Parser).parseSubdirectives
+//@   props C06
+//@   requires ParInv(p)
+//@   ensures [inv] ParInv(p) && PFrame(p) && MuLe(p)
+//@   modifies p.current, p.errors, p.defaultYear, p.lexer.pos, p.lexer.column, p.lexer.line, p.lexer.atStart
+//@   loop 1 invariant ParInv(p) && PFrame(p) && MuLe(p)
+//@   loop 1 decreases 2 * (len(p.lexer.input) - p.lexer.pos) + ite(p.current.Type != TokenEOF, 1, 0)
+//@   loop 2 invariant ParInv(p) && PFrame(p) && MuLe(p) && Mu(p) < atloop(1, Mu(p))
+//@   loop 2 decreases 2 * (len(p.lexer.input) - p.lexer.pos) + ite(p.current.Type != TokenEOF, 1, 0)
+
+//@ func (*Parser).parseAccountDirective
+//@   props C06
+//@   requires ParInv(p)
+//@   ensures [inv] ParInv(p) && PFrame(p) && MuLe(p)
+//@   modifies p.current, p.errors, p.defaultYear, p.lexer.pos, p.lexer.column, p.lexer.line, p.lexer.atStart
+//@   loop 1 invariant ParInv(p) && PFrame(p) && MuLe(p)
+//@   loop 1 decreases 2 * (len(p.lexer.input) - p.lexer.pos) + ite(p.current.Type != TokenEOF, 1, 0)
+
+//@ func (*Parser).parseCommodityDirective
+//@   props C06
+//@   requires ParInv(p)
+//@   ensures [inv] ParInv(p) && PFrame(p) && MuLe(p)
+//@   modifies p.current, p.errors, p.defaultYear, p.lexer.pos, p.lexer.column, p.lexer.line, p.lexer.atStart
+//@   loop 1 invariant ParInv(p) && PFrame(p) && MuLe(p)
+//@   loop 1 decreases 2 * (len(p.lexer.input) - p.lexer.pos) + ite(p.current.Type != TokenEOF, 1, 0)
+
+//@ func (*Parser).parseIncludeDirective
+//@   props C06
+//@   requires ParInv(p)
+//@   ensures [inv] ParInv(p) && PFrame(p) && MuLe(p)
+//@   modifies p.current, p.errors, p.defaultYear, p.lexer.pos, p.lexer.column, p.lexer.line, p.lexer.atStart
+//@   loop 1 invariant ParInv(p) && PFrame(p) && MuLe(p)
+//@   loop 1 decreases 2 * (len(p.lexer.input) - p.lexer.pos) + ite(p.current.Type != TokenEOF, 1, 0)
+
+//@ func (*Parser).parsePriceDirective
+//@   props C06
+//@   requires ParInv(p)
+//@   ensures [inv] ParInv(p) && PFrame(p) && MuLe(p)
+//@   modifies p.current, p.errors, p.defaultYear, p.lexer.pos, p.lexer.column, p.lexer.line, p.lexer.atStart
+
+//@ func (*Parser).parseDefaultCommodityDirective
+//@   props C06
+//@   requires ParInv(p)
+//@   ensures [inv] ParInv(p) && PFrame(p) && MuLe(p)
+//@   modifies p.current, p.errors, p.defaultYear, p.lexer.pos, p.lexer.column, p.lexer.line, p.lexer.atStart
+
+//@ func (*Parser).parseYearDirective
+//@   props C06
+//@   requires ParInv(p)
+//@   ensures [inv] ParInv(p) && PFrame(p) && MuLe(p)
+//@   modifies p.current, p.errors, p.defaultYear, p.lexer.pos, p.lexer.column, p.lexer.line, p.lexer.atStart
+
+//@ func (*Parser).parseDirective
+//@   props C06
+//@   requires ParInv(p)
+//@   ensures [inv] ParInv(p) && PFrame(p) && MuLe(p)
+//@   ensures [lt] old(p.current.Type) != TokenEOF ==> MuLt(p)
+//@   modifies p.current, p.errors, p.defaultYear, p.lexer.pos, p.lexer.column, p.lexer.line, p.lexer.atStart
+
+//@ func Parse
+//@   props C06
+//@   ensures [total] true
